@@ -202,7 +202,7 @@ func blockCaches(c *core.Ctx, e *env, wallets []*chainkit.UWallet) {
 		return
 	}
 	defer P.Close()
-	warm, err := e.newNode(false)
+	warm, err := e.newNodeOpt(false, true)
 	if err != nil {
 		c.Inconclusive("node: " + err.Error())
 		return
